@@ -279,6 +279,73 @@ pub fn loopback_multicast_works() -> bool {
     }
 }
 
+/// A growable sink that accepts at most `n` bytes per `write` call (and does not override
+/// write_vectored: std then forwards the first non-empty buffer to `write`).
+pub struct Drip {
+    pub buf: std::io::Cursor<Vec<u8>>,
+    pub n: usize,
+}
+impl Drip {
+    pub fn new(n: usize) -> Drip {
+        Drip { buf: std::io::Cursor::new(Vec::new()), n }
+    }
+}
+impl std::io::Write for Drip {
+    fn write(&mut self, b: &[u8]) -> std::io::Result<usize> {
+        let k = b.len().min(self.n);
+        std::io::Write::write(&mut self.buf, &b[..k])
+    }
+    fn flush(&mut self) -> std::io::Result<()> {
+        Ok(())
+    }
+}
+impl std::io::Seek for Drip {
+    fn seek(&mut self, p: std::io::SeekFrom) -> std::io::Result<u64> {
+        std::io::Seek::seek(&mut self.buf, p)
+    }
+}
+
+/// A growable sink with a native gathered write: `write_vectored` takes bytes from as many of
+/// the buffers as fit into `n` bytes per call and stops in the middle of a buffer when `n` runs
+/// out (as a socket or a line-buffered stream may); `write` is limited to `n` bytes too.
+pub struct Gather {
+    pub buf: std::io::Cursor<Vec<u8>>,
+    pub n: usize,
+}
+impl Gather {
+    pub fn new(n: usize) -> Gather {
+        Gather { buf: std::io::Cursor::new(Vec::new()), n }
+    }
+}
+impl std::io::Write for Gather {
+    fn write(&mut self, b: &[u8]) -> std::io::Result<usize> {
+        let k = b.len().min(self.n);
+        std::io::Write::write(&mut self.buf, &b[..k])
+    }
+    fn write_vectored(&mut self, bufs: &[std::io::IoSlice<'_>]) -> std::io::Result<usize> {
+        let mut left = self.n;
+        let mut total = 0;
+        for b in bufs {
+            if left == 0 {
+                break;
+            }
+            let k = b.len().min(left);
+            std::io::Write::write_all(&mut self.buf, &b[..k])?;
+            left -= k;
+            total += k;
+        }
+        Ok(total)
+    }
+    fn flush(&mut self) -> std::io::Result<()> {
+        Ok(())
+    }
+}
+impl std::io::Seek for Gather {
+    fn seek(&mut self, p: std::io::SeekFrom) -> std::io::Result<u64> {
+        std::io::Seek::seek(&mut self.buf, p)
+    }
+}
+
 /// The same probe for IPv6 (ff02::fb, default multicast interface).
 pub fn loopback_multicast6_works() -> bool {
     unsafe {
